@@ -62,11 +62,51 @@ def default_inputs(run, rng, focus):
             # attribute-heavy documents over few values: unique-attribute rules bite
             kw = dict(attr_counts=(1, 2, 2, 3), values=('1', '2'), tags=['a', 'b'])
             ns = False
+        if not kw and rng.random() < .25:
+            # attribute values that differ only in inner white space, and the same local attribute
+            # name with and without a namespace (what node_text collapses / strips)
+            if rng.random() < .5:
+                kw = dict(attr_counts=(1, 2, 2), values=('Hello  World', 'Hello World', ' x', 'x', '1'),
+                          attrs=['i', '{urn:p}i', 'j', 'k'])
+            else:
+                kw = dict(attr_counts=(1, 1, 2), values=('n1', 'n2'),
+                          attrs=['id', '{http://www.w3.org/XML/1998/namespace}id', 'i', '{urn:p}i'], tags=['a', 'b'])
+            ns = True
         L, R = gen.gen_pair(rng, 8, ns=ns, words=gen.WORDS[:8] if rng.random() < .5 else None, **kw)
+        if kw and 'attrs' in kw and rng.random() < .7:
+            # targeted: the right document differs in what node_text cannot see -- inner white space of an
+            # attribute value, or the namespace of an attribute with the same local name and value
+            R = deepcopy(L) if rng.random() < .5 else R
+            for e in R.iter():
+                if not isinstance(e.tag, str):
+                    continue
+                for k, v in list(e.attrib.items()):
+                    r_ = rng.random()
+                    if '  ' in v and r_ < .6:
+                        e.set(k, v.replace('  ', ' '))
+                    elif v.startswith(' ') and r_ < .6:
+                        e.set(k, v.strip())
+                    elif k == 'i' and '{urn:p}i' not in e.attrib and r_ < .4:
+                        del e.attrib[k]; e.set('{urn:p}i', v)
+                    elif k == '{urn:p}i' and 'i' not in e.attrib and r_ < .4:
+                        del e.attrib[k]; e.set('i', v)
+        XID = '{http://www.w3.org/XML/1998/namespace}id'
+        for doc in (L, R):      # xml:id values must be unique within a document to be parseable
+            seen = set()
+            for e in doc.iter():
+                if isinstance(e.tag, str) and XID in e.attrib:
+                    v = e.get(XID)
+                    while v in seen:
+                        v = v + 'x'
+                    seen.add(v)
+                    e.set(XID, v)
         if ns and rng.random() < .5:
             L, R = ns_variant(rng, L), ns_variant(rng, R)
         opts = rng.choice(sets)
-        if kw:
+        if kw and 'attrs' in kw:
+            opts = rng.choice([{}, {'uniqueattrs': ['i']}, {'uniqueattrs': ['id'], 'fast_match': True}, {'best_match': True},
+                               {'uniqueattrs': [('a', '{urn:p}i')]}, {'ignored_attrs': ['j']}, {'ignored_attrs': ['i']}, {'ignored_attrs': ['id'], 'fast_match': True}])
+        elif kw:
             opts = rng.choice(UNIQ_SETS[:2] + [{'uniqueattrs': ['j', 'i'], 'fast_match': True}, {'uniqueattrs': [('a', 'i'), 'k']}])
         if rng.random() < .08:
             opts = dict(opts, _embed=True)     # the trees are handed over as sub-elements of larger documents
@@ -113,7 +153,13 @@ def default_inputs(run, rng, focus):
                 for b in gen.all_trees(3):
                     for o in ({'fast_match': True}, {'best_match': True}):
                         inputs.append((a, b, o)); exh += 1
-    elif focus == "C03":
+    if focus in ("C01", "C04", "C05", "C17"):
+        # single-tag trees up to 5 nodes: many moves into / below same-tag siblings (sibling indices shift)
+        st = gen.all_trees(5, tags=('s',))
+        for a in st:
+            for b in st:
+                inputs.append((a, b, {})); exh += 1
+    if focus == "C03":
         for a in gen.all_trees(4 if quick else 5):
             for o in gen.OPTION_SETS[:3] + F_SETS:
                 inputs.append((a, a, o)); exh += 1
